@@ -532,6 +532,34 @@ func poseidonDrv(raw json.RawMessage, resp *drv.Response) error {
 				resp.Violate("c10/tovec/second-decomposition", fmt.Sprintf("ToVec(%v): the bits of h + r supplied for the prover-chosen decomposition satisfy every constraint; the chunks become %v instead of %v", h, strsOf(got), strsOf(ref.BnToVec(h))), map[string]any{"h": h.String()})
 			}
 		}
+		// ... and if the five chunks themselves are prover-supplied: the hash h + p*2^(56 i) presented with the chunks of h, chunk i given
+		// as value + p (the same element for the transcript, which reduces what it absorbs) must not be accepted
+		for i := 0; i < 5; i++ {
+			h := drv.RandBelow(rng, new(big.Int).Sub(bigR, pow2(252)))
+			h2 := new(big.Int).Add(h, new(big.Int).Lsh(bigP, uint(56*i)))
+			if h2.Cmp(bigR) >= 0 {
+				continue
+			}
+			applied := false
+			cfg := &engine.Config{Mode: modeOf(req.Mode)}
+			cfg.Strategy = func(c *engine.HintCall) []*big.Int {
+				if len(c.Honest) != 5 || engine.KnownHint(c.Name) {
+					return nil
+				}
+				out := ref.BnToVec(h)
+				out[i] = new(big.Int).Add(out[i], bigP)
+				applied = true
+				return out
+			}
+			err := hc.Run(cfg, []*big.Int{h2}, func(api frontend.API, iv []frontend.Variable) error {
+				poseidon.NewBN254Chip(api).ToVec(iv[0])
+				return nil
+			})
+			resp.Count(fmt.Sprintf("tovec-alias/%d/%s", i, h), !applied)
+			if applied && err == nil {
+				resp.Violate("c10/tovec/aliased-hash", fmt.Sprintf("ToVec(h + p*2^%d) accepts the chunks of h with chunk %d given as value + p: two hashes are observed as the same elements", 56*i, i), map[string]any{"h": h.String(), "i": i})
+			}
+		}
 		resp.Sample(map[string]any{"tovec_of_r_minus_1": strsOf(ref.BnToVec(new(big.Int).Sub(bigR, one)))})
 	default:
 		return fmt.Errorf("unknown part %q", req.Part)
